@@ -2005,8 +2005,8 @@ class Program:
             head = ann.value
             hname = head.attr if isinstance(head, ast.Attribute) else getattr(head, 'id', '')
             args = ann.slice.elts if isinstance(ann.slice, ast.Tuple) else [ann.slice]
-            if hname in ('List', 'list', 'Sequence', 'Iterable'):
-                return t_list(self.ann_to_type(mod, args[0], self_cls))
+            if hname in ('List', 'list', 'Sequence', 'Iterable', 'Iterator', 'Generator', 'Collection', 'MutableSequence', 'Reversible'):
+                return t_list(self.ann_to_type(mod, args[0], self_cls))      # (what iterating it yields)
             if hname in ('Set', 'set', 'FrozenSet', 'frozenset'):
                 return t_set(self.ann_to_type(mod, args[0], self_cls))
             if hname in ('Dict', 'dict'):
@@ -2302,7 +2302,7 @@ class TypeEnv:
                 # `[*xs, y]`: the elements of xs, not xs itself
                 return t_list(union((self.elem_type(self.type_of(x.value)) if isinstance(x, ast.Starred) else self.type_of(x))
                                     for x in e.elts) if e.elts else ANY)
-            return t_list(self.type_of(e.elt))
+            return t_list(self._filtered_elt_type(e))
         if isinstance(e, (ast.Set, ast.SetComp)):
             if isinstance(e, ast.Set):
                 return t_set(union(self.type_of(x) for x in e.elts))
@@ -2310,7 +2310,7 @@ class TypeEnv:
         if isinstance(e, (ast.Dict, ast.DictComp)):
             return ('dict', ANY, ANY)
         if isinstance(e, ast.GeneratorExp):
-            return t_list(self.type_of(e.elt))
+            return t_list(self._filtered_elt_type(e))
         if isinstance(e, ast.Tuple):
             return ('tuple', tuple(self.type_of(x) for x in e.elts))
         if isinstance(e, ast.IfExp):
@@ -2491,6 +2491,20 @@ class TypeEnv:
                 return t_list(('tuple', (ct[1], ct[2]))) if ct[0] == 'dict' else ANY
             return NONE if m in ('append', 'extend', 'add', 'update', 'clear', 'sort', 'insert', 'remove') else ANY
         return ANY
+
+    def _filtered_elt_type(self, e) -> tuple:
+        """Element type of a comprehension: an Optional element that the comprehension's own filter tests (`if <elt>` /
+        `if <elt> is not None`) is not None in the result."""
+        t = self.type_of(e.elt)
+        if t[0] == 'opt':
+            dump = ast.dump(e.elt)
+            for g in e.generators:
+                for c in g.ifs:
+                    if ast.dump(c) == dump or (isinstance(c, ast.Compare) and len(c.ops) == 1 and isinstance(c.ops[0], (ast.IsNot, ast.NotEq)) and
+                                               ast.dump(c.left) == dump and isinstance(c.comparators[0], ast.Constant) and
+                                               c.comparators[0].value is None):
+                        return strip_opt(t)
+        return t
 
     # -- call resolution -------------------------------------------------------------------
     def resolve_call(self, e: ast.Call) -> List[Any]:
